@@ -29,18 +29,21 @@ func main() {
 	out := flag.String("out", "", "output dir")
 	replay := flag.String("replay", "", "replay file")
 	flag.Parse()
+	conc := *comp == "funnelconc"
 	// Deterministic fan-out: one P, no asynchronous preemption, no GC cycles (see fanState).
-	if !strings.Contains(os.Getenv("GODEBUG"), "asyncpreemptoff=1") {
+	if !conc && !strings.Contains(os.Getenv("GODEBUG"), "asyncpreemptoff=1") {
 		env := append(os.Environ(), "GODEBUG=asyncpreemptoff=1")
 		if err := syscall.Exec("/proc/self/exe", os.Args, env); err != nil {
 			panic(err)
 		}
 	}
-	runtime.GOMAXPROCS(1)
-	debug.SetGCPercent(-1)
+	if !conc {
+		runtime.GOMAXPROCS(1)
+		debug.SetGCPercent(-1)
+	}
 	o := gen.NewOut(*out, *comp)
 	defer o.Close()
-	if *comp != "funnel" {
+	if *comp != "funnel" && !conc {
 		fmt.Fprintln(os.Stderr, "unknown component")
 		os.Exit(2)
 	}
@@ -59,7 +62,13 @@ func main() {
 				o.Case(l, "bad-op", false)
 				continue
 			}
-			line, res, nt := runCase(c, nil, o)
+			if conc {
+				// corpus lines for the concurrent component are plain cases: rerun and monitor
+				line, res, nt := runCase(c, nil, o, true)
+				o.Case(line+" ## "+res, "ok", nt)
+				continue
+			}
+			line, res, nt := runCase(c, nil, o, false)
 			_ = line
 			o.Case(l, res, nt)
 		}
@@ -67,8 +76,13 @@ func main() {
 	}
 	r := gen.New(*seed)
 	for i := 0; i < *n; i++ {
-		c := genCase(r, o)
-		line, res, nt := runCase(c, gen.New(r.U64()), o)
+		c := genCase(r, o, conc)
+		line, res, nt := runCase(c, gen.New(r.U64()), o, conc)
+		if conc {
+			// real goroutine interleavings: no model equality, the Lean monitors decide the trace
+			o.Case(line+" ## "+res, "ok", nt)
+			continue
+		}
 		o.Case(line, res, nt)
 	}
 }
